@@ -3,4 +3,4 @@ CONSTANTS
   MaxSeg = 2
   MaxDepth = 2
   Mut = "none"
-INVARIANTS FirstMatch NoPrefix MatcherAgrees MapThenRoute
+INVARIANTS FirstMatch NoPrefix MatcherAgrees MapThenRoute PoolWhole
